@@ -22,7 +22,7 @@ FILES = {
 }
 # templated files whose directories carry DIFFERENT jinja contexts (nested .sqlfluff): e defines my_var, f and g do not
 TFILES = {
-    "e.sql": "SELECT {{ my_var }} AS x FROM t\n",
+    "e.sql": "-- sqlfluff:exclude_rules:LT01\nSELECT  {{ my_var }} AS x FROM t\n",   # its own rule selection (inline)
     "f.sql": "SELECT {{ my_var }} AS y FROM u\n",       # my_var undefined here -> TMP
     "g.sql": "SELECT  {{ my_var }} AS z, {{ other }} FROM v\n",
 }
